@@ -78,7 +78,8 @@ func (fe functionExpr) CompletionAtPos(ctx context.Context, pos hcl.Pos) []lang.
 			_, lengthLastRune := utf8.DecodeLastRune(recoveredSuffixBytes)
 			recoveredSuffixBytes = recoveredSuffixBytes[:len(recoveredSuffixBytes)-lengthLastRune]
 
-			recoveredIdentifier := append(recoveredPrefixBytes, recoveredSuffixBytes...)
+			// copy the prefix first: appending to a sub-slice of the file's bytes would write into the file
+			recoveredIdentifier := append(append([]byte{}, recoveredPrefixBytes...), recoveredSuffixBytes...)
 
 			// check if our recovered identifier contains "::"
 			// Why two colons? For no colons the parser would return a traversal expression
